@@ -96,6 +96,18 @@ func hostMutations(r *rand.Rand, c route.Case) []route.Req {
 		if k := strings.LastIndexByte(host, '.'); k >= 0 {
 			muts = append(muts, host[:k], host[:k+1])
 		}
+		// each label in turn replaced by a long one (a request may carry any Host, also labels beyond what DNS allows),
+		// alone and followed by further labels
+		labels := strings.Split(host, ".")
+		for i := range labels {
+			if r.IntN(2) == 0 {
+				continue
+			}
+			cp := append([]string(nil), labels...)
+			cp[i] = strings.Repeat("l", []int{63, 64, 65, 100, 300}[r.IntN(5)])
+			long := strings.Join(cp, ".")
+			muts = append(muts, long, long+".attacker.net")
+		}
 		for _, h := range muts {
 			if r.IntN(3) == 0 {
 				continue
